@@ -430,6 +430,12 @@ def merged_items(I, v, cond=TRUE):
     return out
 
 
+def is_temp(I, ref):
+    """the anonymous list/dict a comprehension or generator expression builds"""
+    o = I.heap.get(ref.oid) if isinstance(ref, Ref) else None
+    return getattr(o, "comp", None) is not None
+
+
 def specialise(t, cond, _memo=None):
     """t with every conditional (at any depth) whose condition is decided by `cond` replaced by the live alternative"""
     from .terms import rebuild
